@@ -72,14 +72,14 @@ Definition pool_own (mac ip : N) (a : amap N) : bool :=
 Definition dwf (c : dcfg) (s : dst) (mac : N) (l : lease) : bool :=
   pool_own mac (l_ip l) (alloc s) &&
   (ahas mac (alloc s) || smem (l_ip l) (avail s) || smem (l_ip l) (unavail s)) &&
-  (c_nat c || negb (smem (l_ip l) (nat s))) && (c_qos c || negb (smem (l_ip l) (qos s))) &&
+  (c_nat c || negb (smem (l_ip l) (nat s))) && (c_qos c || negb (smem (l_ip l) (qos s) || smem (l_ip l) (qosi s))) &&
   negb (existsb (fun p => snd p =? l_ip l) (cvlan s)) &&
   ((l_sid l =? 0) || ((count (l_sid l) (stops s) =? 0) && (c_radius c || (count (l_sid l) (starts s) =? 0)))).
 
 (* "holds nothing" as one boolean *)
 Definition dfree (s : dst) (e : dsess) : bool :=
   negb (ahas (se_mac e) (alloc s)) && (smem (se_ip e) (avail s) || smem (se_ip e) (unavail s)) &&
-  negb (smem (se_ip e) (nat s)) && negb (smem (se_ip e) (qos s)) && negb (ahas (se_mac e) (cmac s)) &&
+  negb (smem (se_ip e) (nat s)) && negb (smem (se_ip e) (qos s) || smem (se_ip e) (qosi s)) && negb (ahas (se_mac e) (cmac s)) &&
   ((se_cid e =? 0) || (negb (ahas (se_cid e) (chash s)) && negb (ahas (se_cid e) (csub s)))) &&
   negb (existsb (fun p => snd p =? se_ip e) (cvlan s)) &&
   ((se_sid e =? 0) || (count (se_sid e) (starts s) =? 0) || (count (se_sid e) (stops s) =? 1)).
@@ -153,10 +153,10 @@ Qed.
 (* the post-state of release_rest, field by field *)
 Lemma release_rest_free (c : dcfg) (s : dst) (mac : N) (l : lease) :
   (c_nat c || negb (smem (l_ip l) (nat s))) = true ->
-  (c_qos c || negb (smem (l_ip l) (qos s))) = true ->
+  (c_qos c || negb (smem (l_ip l) (qos s) || smem (l_ip l) (qosi s))) = true ->
   ((l_sid l =? 0) || ((count (l_sid l) (stops s) =? 0) && (c_radius c || (count (l_sid l) (starts s) =? 0)))) = true ->
   let s' := fst (release_rest c s mac l) in
-  smem (l_ip l) (nat s') = false /\ smem (l_ip l) (qos s') = false /\ ahas mac (cmac s') = false /\
+  smem (l_ip l) (nat s') = false /\ smem (l_ip l) (qos s') || smem (l_ip l) (qosi s') = false /\ ahas mac (cmac s') = false /\
   ((l_cid l =? 0) || (negb (ahas (l_cid l) (chash s')) && negb (ahas (l_cid l) (csub s')))) = true /\
   ((l_sid l =? 0) || (count (l_sid l) (starts s') =? 0) || (count (l_sid l) (stops s') =? 1)) = true /\
   alloc s' = alloc s /\ avail s' = avail s /\ unavail s' = unavail s /\ cvlan s' = cvlan s /\ leases s' = leases s.
@@ -164,7 +164,7 @@ Proof.
   intros Hn Hq Ha. unfold release_rest. simpl.
   repeat split; auto.
   - destruct (c_nat c); simpl in *; [apply smem_sdel_same|now apply negb_true_iff].
-  - destruct (c_qos c); simpl in *; [apply smem_sdel_same|now apply negb_true_iff].
+  - destruct (c_qos c); simpl in *; [now rewrite !smem_sdel_same|now apply negb_true_iff].
   - apply ahas_adel_same.
   - destruct (l_cid l =? 0); simpl; auto. now rewrite !ahas_adel_same.
   - destruct (l_sid l =? 0) eqn:Z; simpl in *; auto.
@@ -236,7 +236,7 @@ Proof.
   apply Z.ltb_lt in T. rewrite T.
   assert (Hn : (c_nat c || negb (smem (l_ip l) (nat (pool_release (drop_lease s mac l) (l_ip l))))) = true).
   { unfold pool_release. simpl. destruct (drop_val (l_ip l) (alloc s)); exact H2. }
-  assert (Hq : (c_qos c || negb (smem (l_ip l) (qos (pool_release (drop_lease s mac l) (l_ip l))))) = true).
+  assert (Hq : (c_qos c || negb (smem (l_ip l) (qos (pool_release (drop_lease s mac l) (l_ip l))) || smem (l_ip l) (qosi (pool_release (drop_lease s mac l) (l_ip l))))) = true).
   { unfold pool_release. simpl. destruct (drop_val (l_ip l) (alloc s)); exact H1. }
   assert (Ha : ((l_sid l =? 0) || ((count (l_sid l) (stops (pool_release (drop_lease s mac l) (l_ip l))) =? 0) &&
                  (c_radius c || (count (l_sid l) (starts (pool_release (drop_lease s mac l) (l_ip l))) =? 0)))) = true).
@@ -356,7 +356,7 @@ Qed.
 (* ---- witnesses: the guard is satisfiable on a reachable state; the unguarded clauses are refuted *)
 Definition cfgD : dcfg :=
   {| c_lo := 0; c_hi := 15; c_avail0 := [2;3;4;5;6;7;8;9;10;11;12;13;14]; c_lease := 3600%Z; c_radius := true;
-     c_qos := true; c_nat := true; c_natcap := 4; c_cache := true |}.
+     c_qos := true; c_nat := true; c_natcap := 4; c_cache := true; c_full := [] |}.
 Definition stD : dst := drun cfgD [Discover 1 1 true; Request 1 2 1 true; Discover 2 0 false; Request 2 3 0 false].
 
 Lemma d_guard_satisfiable :
@@ -421,18 +421,18 @@ Qed.
 Lemma p_padt_releases (c : pcfg) (s : pst) (id mac i : N) (x : psess) :
   pfind s id mac = Some (i, x) -> (pc_pool c || negb (ahas i (palloc s))) = true ->
   pheld (fst (fst (pstep c s (Padt id mac)))) i (p_ip s i) = [].
-Proof. intros F G. unfold pstep. rewrite F. simpl. now apply p_end_by_frame. Qed.
+Proof. intros F G. unfold pstep, pstep1. rewrite F. simpl. now apply p_end_by_frame. Qed.
 
 Lemma p_lcpterm_releases (c : pcfg) (s : pst) (id mac i : N) (x : psess) :
   pfind s id mac = Some (i, x) -> (pc_pool c || negb (ahas i (palloc s))) = true ->
   pheld (fst (fst (pstep c s (LcpTerm id mac)))) i (p_ip s i) = [].
-Proof. intros F G. unfold pstep. rewrite F. simpl. now apply p_end_by_frame. Qed.
+Proof. intros F G. unfold pstep, pstep1. rewrite F. simpl. now apply p_end_by_frame. Qed.
 
 Lemma p_authfail_releases (c : pcfg) (s : pst) (id mac i : N) (x : psess) :
   pfind s id mac = Some (i, x) -> (pc_pool c || negb (ahas i (palloc s))) = true ->
   pheld (fst (fst (pstep c s (Pap id mac false)))) i (p_ip s i) = [].
 Proof.
-  intros F G. unfold pstep. rewrite F. simpl.
+  intros F G. unfold pstep, pstep1. rewrite F. simpl.
   destruct (pc_pool c) eqn:P; simpl in *.
   - rewrite (pheld_ext _ (ppool_release s i) i _); [apply p_release_free| |]; unfold ppool_release; simpl;
       destruct (aget i (palloc s)); reflexivity.
@@ -485,7 +485,7 @@ Lemma p_frame_after_end_noop (c : pcfg) (s : pst) (id mac : N) :
   pfind s id mac = None ->
   pstep c s (Padt id mac) = (s, [], []) /\ pstep c s (LcpTerm id mac) = (s, [], []) /\
   pstep c s (Pap id mac false) = (s, [], []).
-Proof. intro F. unfold pstep. rewrite F. auto. Qed.
+Proof. intro F. unfold pstep, pstep1. rewrite F. auto. Qed.
 
 Definition cfgP : pcfg := {| pc_avail0 := [2;3;4;5;6;7]; pc_pool := true; pc_radius := true; pc_timeout := 300%Z |}.
 Definition stP : pst :=
@@ -511,7 +511,7 @@ Lemma p_idle_partial (c : pcfg) (s : pst) (i : N) :
 Proof.
   intro A.
   assert (K : palloc (fst (fst (pstep c s IdleTick))) = palloc s /\ pavail (fst (fst (pstep c s IdleTick))) = pavail s).
-  { unfold pstep.
+  { unfold pstep, pstep1.
     apply (fold_inv _ (fun acc : pst * list (N * N) * list N =>
                          palloc (fst (fst acc)) = palloc s /\ pavail (fst (fst acc)) = pavail s)); [|auto].
     intros [[s0 ev] mk] p [P1 P2]. simpl in *.
